@@ -91,7 +91,7 @@ impl Prop for C17 {
         }
     }
     fn rule(&self) -> &'static str {
-        "One case = one history of up to 60 operations over 1..5 users {create_user, remove_user, verify(right / wrong / other user's / a prefix / other case / the empty password, for live, removed, unknown and empty uids), create_session(default / lifetime 0 / long), refresh, invalidate by token, invalidate by user, get_uid_by_token, authenticated-route request over the simulated network with a valid / stale / absent cookie, advance the virtual wall clock to expiry-1s / expiry / expiry+1s / far future}, without a pepper or with one of 7, 32, 64 or about 100 bytes; passwords are short, long pass phrases differing only in their last character (70..120 bytes), runs of one letter at lengths around 32 and 64, or non-ASCII; checked against a reference model after every step. Distinct = distinct sequence of (operation, outcome); non-trivial = at least one session created and the clock moved across or onto an expiry boundary."
+        "One case = one history of up to 60 operations over 1..5 users {create_user, remove_user, verify(right / wrong / other user's / a prefix / other case / the empty password, for live, removed, unknown and empty uids), create_session(default / lifetime 0 / long / a burst of 40 with lifetime 0), refresh, invalidate by token, invalidate by user, get_uid_by_token, authenticated-route request over the simulated network with a valid / stale / absent cookie, advance the virtual wall clock to expiry-1s / expiry / expiry+1s / far future}, without a pepper or with one of 7, 32, 64 or about 100 bytes; passwords are short, long pass phrases differing only in their last character (70..120 bytes), runs of one letter at lengths around 32 and 64, or non-ASCII; checked against a reference model after every step. Distinct = distinct sequence of (operation, outcome); non-trivial = at least one session created and the clock moved across or onto an expiry boundary."
     }
     fn assumptions(&self) -> Vec<String> {
         vec![
@@ -101,7 +101,7 @@ impl Prop for C17 {
         ]
     }
     fn expected_counters(&self) -> Vec<&'static str> {
-        vec!["c17.ops", "c17.clock_to_expiry_boundary", "c17.refresh_on_expired", "c17.refresh_on_live", "c17.lifetime_zero_sessions", "c17.route_requests", "c17.verify_other_users_password", "c17.removed_user_token_used", "c17.with_pepper", "clock_jump"]
+        vec!["c17.ops", "c17.clock_to_expiry_boundary", "c17.refresh_on_expired", "c17.refresh_on_live", "c17.lifetime_zero_sessions", "c17.route_requests", "c17.verify_other_users_password", "c17.removed_user_token_used", "c17.with_pepper", "c17.burst_of_40_sessions", "clock_jump"]
     }
     fn real_vs_stub(&self) -> (Vec<&'static str>, Vec<&'static str>) {
         (vec!["humphrey_auth::{AuthProvider, Session, User, AuthDatabase for Vec<User>, with_auth_route}, Argon2, OsRng, humphrey::App for route requests"], vec!["wall clock (virtual), TCP (humsim::net)"])
@@ -138,6 +138,9 @@ impl Prop for C17 {
             } else if r < 40 {
                 o.op = "create_session".into();
                 o.lifetime = ["default", "default", "zero", "long"][rng.usize_below(4)].into();
+                if Rng::new(humsim::rng::mix(&[rng.next_u64(), 0xC17_0002])).chance(1, 8) {
+                    o.lifetime = "zero-burst".into();
+                }
             } else if r < 55 {
                 o.op = "refresh".into();
             } else if r < 60 {
@@ -183,7 +186,13 @@ impl Prop for C17 {
         };
         let out: Arc<Mutex<(Vec<Violation>, Vec<String>, Vec<(String, u64)>)>> = Arc::new(Mutex::new((vec![], vec![], vec![])));
         let out2 = out.clone();
-        let scn2 = scn.clone();
+        let mut scn2 = scn.clone();
+        // a "zero-burst" is 40 session creations with lifetime 0 in a row for one user (each one
+        // has expired by the time the next is asked for): many tokens issued within one history
+        scn2.ops = scn2.ops.iter().flat_map(|o| if o.op == "create_session" && o.lifetime == "zero-burst" { (0..40).map(|_| Op { lifetime: "zero".into(), ..o.clone() }).collect::<Vec<_>>() } else { vec![o.clone()] }).collect();
+        if scn.ops.iter().any(|o| o.lifetime == "zero-burst") {
+            rr.count("c17.burst_of_40_sessions", 1);
+        }
         let outcome = sim::run(scn.sim.to_config(), move || {
             let scn = scn2;
             let mut cfg = AuthConfig::default().with_default_lifetime(scn.default_lifetime).with_default_refresh_lifetime(scn.refresh_lifetime);
